@@ -37,7 +37,7 @@ K3_ASSUME = COMMON_ASSUMPTIONS + ["A-COMP", "A-PURE", "A-MARKER", "HoleC for chi
 FRESH = U('pyvc.fresh', 'unit', 'FRESH', needs_k3=True)
 S_MORE = [K("k3::S-Switch")]
 S_COMMENT = [K("k3::S-Comment-noninterp"), K("k3::S-Comment-drop"), K("k3::S-Comment-interp")]
-TAL_BASIC = [K("k3::S-Define"), K("k3::S-Condition"), K("k3::S-Content"), K("k3::S-OmitTag"),
+TAL_BASIC = [K("k3::S-Define"), K("k3::S-Define-clauses"), K("k3::S-Condition"), K("k3::S-Content"), K("k3::S-OmitTag"),
              K("k3::S-OmitTag-empty"), K("k3::S-OmitTag-selfclosing"),
              K("k3::S-Attribute"), K("k3::S-Repeat")]
 
@@ -70,7 +70,7 @@ PROPS = {
         "Emitted save/assign/restore brackets of tal:define and tal:repeat are proved to restore the "
         "outer binding (or undefinedness) on normal exit, globals are proved to persist in scope and "
         "in the render-wide context, and macro calls receive a copy of the scope and merge globals back.",
-        [K("k3::S-Define"), K("k3::S-Repeat"), K("k3::S-UseExternal"), K("k3::S-MacroUseInternal"),
+        [K("k3::S-Define"), K("k3::S-Define-clauses"), K("k3::S-Repeat"), K("k3::S-UseExternal"), K("k3::S-MacroUseInternal"),
          K("k3::S-Repeat-reserved"), K("k3::S-Define-reserved"), K("k3::S-Define-econtext"),
          K("k3::S-OnError-Define"), K("k3::S-GlobalInLocal"), FRESH] +
         [K("utils.py::Scope." + m) for m in ("get", "__getitem__", "__contains__", "get_name", "set_global")],
